@@ -10,6 +10,8 @@ import vlib
 from runner import Stream
 import gen_legacy as g
 import legacy_common as lc
+import simlib
+import simprops
 
 ID = "C13"
 IMPORTS = ["CaresProps.C13", "CaresProps.C13b"]
@@ -467,6 +469,9 @@ STREAMS = [
     _hosts_stream(),
     Stream("hosts-reload", "h_text", None, gen_hosts_reload, monitor=mon_hosts_reload,
            nontrivial=lambda c, o: any(x.startswith("ok|") or " ok|" in x for x in o)),
+    # end to end through the channel for the front ends the channel model does not cover: reverse-map names asked and
+    # PTR targets returned by gethostbyaddr/getnameinfo, addresses of gethostbyname and of getaddrinfo with sorting
+    simlib.lookups_stream(simprops.mon_lookups, quick_n=300, thorough_n=8000),
 ]
 
 LEVEL_TEXT = ("Proof. End-to-end part at the model level (C13b/C12c): for the channel model's getaddrinfo client the addresses "
@@ -483,7 +488,10 @@ LEVEL_TEXT = ("Proof. End-to-end part at the model level (C13b/C12c): for the ch
               "octet and nibble order; PTR replies return the PTR targets. Tie: real functions vs compiled model on "
               "generated answers (CNAME chains, mixed families, 0..200 records, foreign classes), capacities, "
               "sortlists, scripted source addresses; python monitors check multiset preservation, family filters "
-              "and reverse names (ipaddress.reverse_pointer) directly on the implementation.")
+              "and reverse names (ipaddress.reverse_pointer) directly on the implementation; the gethostbyname / gethostbyaddr / "
+              "getnameinfo / sorted-getaddrinfo front ends are run end to end through a channel (lookups stream, monitor only): "
+              "question asked = reverse-map name of the address, PTR target and address returned, sub-query types = requested "
+              "family, per family exactly the address set of one scripted reply, no duplicates.")
 LEVEL_NOTE = ("Trusted: Lean kernel, hand-written models as far as the correspondence exercises them, libc qsort "
               "(permutes), ares_inet_pton (observed input), harness/h_legacy.c with its virtual socket functions, "
               "the generators, the runner. End-to-end part: see the simulator streams.")
